@@ -510,5 +510,31 @@ def run_C12(ctx):
                 ctx.violation('counterexample', 'a grammar whose LR(0) collection has %d states (item : T_i U_j, %d x %d pairs) is %s (%d states delivered); the limit is: fewer than 2000 states are processed, 2000 or more refused'
                               % (nt * nu + nt + 4, nt, nu, got, nstates), dict(defect='state_limit', grammar_text=open(p).read()[:20000], expected=want, observed=got), interface='I1e')
         ctx.extra['state_limit'] = 'a 1999-state grammar is processed, a 2000-state grammar is refused with "too many states"'
+        # through the command line (the file is read there): the part of the file that decides the verdict stands after a very long line
+        yaccgo = os.path.join(vlib.build_impl(), 'yaccgo')
+        head = '%{\npackage main\n%}\n%union {\n v0 int\n}\n%token <v0> NUM\n%type <v0> e t\n'
+        tail = '%%\nfunc GetToken(input string, valTy *ValType, pos *int) int { return -1 }\n'
+        ncli = 0
+        for size in (200, 5000, 70000, 140000):
+            filler = '// ' + 'generated data, ' * (size // 16) + '\n'
+            for (name, rules, want) in (('usable', "e : e '+' t | t ;\nt : NUM ;\n", None),
+                                        ('undefined', "e : e '+' t | t ;\nt : NUM ghost ;\n", 'undefined'),
+                                        ('unproductive', "e : e '+' t ;\nt : NUM ;\n", 'unproductive')):
+                for where in ('declarations', 'rules'):
+                    text = (head + filler + '%start e\n%%\n' + rules + tail) if where == 'declarations' else (head + '%start e\n%%\n' + filler + rules + tail)
+                    src = os.path.join(work, 'cli_%s_%d_%s.y' % (name, size, where))
+                    open(src, 'w').write(text)
+                    try:
+                        r = subprocess.run([yaccgo, 'generate', 'go', src, src + '.go'], capture_output=True, text=True, timeout=60)
+                        got = front.impl_error_class(dict(panic=r.stderr, err=r.stdout)) if r.returncode != 0 else None
+                    except subprocess.TimeoutExpired:
+                        got = 'timeout'
+                    ctx.evaluations += 1
+                    ncli += 1
+                    if got != want:
+                        ctx.violation('counterexample', 'through the command line: the %s grammar with a comment line of %d bytes in the %s is %s, expected %s'
+                                      % (name, size, where, got or 'processed', want or 'processed'),
+                                      dict(defect='cli_' + name, grammar_text=text[:3000] + ('...' if len(text) > 3000 else ''), long_line_bytes=size, expected=want or 'processed', observed=got or 'processed'), interface='I1e')
+        ctx.extra['through_the_cli'] = ncli
     finally:
         shutil.rmtree(work, ignore_errors=True)
